@@ -139,12 +139,24 @@ def merge_loop_form(ctx, facts, roles, mb, vecp, cfg):
                 src = strip_refs(val[2][0]) if val[0] == "call" and val[1] and val[1]["path"] == CLONE else None
                 pushed.append(src)
         inner_live = [bi for bi in inner_nexts if bi in bl]
-        if v == "Array":
+        # `acc.extend(members.iter().cloned())` / extend_from_slice(members) / append(&mut members.clone()): all members, in order
+        extended = []
+        for bi in sorted(bl):
+            t = mb.blocks[bi]["term"]
+            if t["k"] == "Call" and re.search(r"Vec::<T, A>::(extend|extend_from_slice)$|as std::iter::Extend<.*>>::extend$", callee_path(t) or ""):
+                src = strip_refs(mb.trace(t["args"][1]))
+                plumbing = not expr_mentions(src, lambda y: y[0] == "call" and y[1] is not None and not re.search(r"(::iter|::into_iter|::cloned|::copied|::to_vec|::as_slice|Clone>::clone|Deref>::deref|IntoIterator>::into_iter|::next)$", y[1]["path"]))
+                payload = expr_mentions(src, lambda y: y[0] == "downcast" and y[2] == "Array" and is_elem(y[1]))
+                extended.append(plumbing and payload)
+        if v == "Array" and extended:
+            good = extended == [True] and not pushed and not inner_live
+            what = "all its elements (extend)" if good else "pushes %s, extends %s" % ([show_expr(x)[:50] if x else None for x in pushed], extended)
+        elif v == "Array":
             good = len(pushed) == 1 and pushed[0] is not None and len(inner_live) == 1 and is_elem(pushed[0], inner_live[0]) \
                 and expr_mentions(inner_nexts[inner_live[0]], lambda y: y[0] == "downcast" and y[2] == "Array" and is_elem(y[1]))
             what = "a clone of each element" if good else "%s (inner loops: %d)" % ([show_expr(x)[:50] if x else None for x in pushed], len(inner_live))
         else:
-            good = len(pushed) == 1 and pushed[0] is not None and is_elem(pushed[0]) and not inner_live
+            good = len(pushed) == 1 and pushed[0] is not None and is_elem(pushed[0]) and not inner_live and not extended
             what = "a clone of itself" if good else "%s" % [show_expr(x)[:50] if x else None for x in pushed]
         ctx.check(good, "K1.contribution", "merge: a %s operand contributes %s (%s)" % (v, "its elements" if v == "Array" else "itself", cfg),
                   "in merge a %s operand contributes %s" % (v, what), where=mb.where(), fn=mb.key, nontrivial=True, sample={"kind": v, "contributes": what})
